@@ -32,6 +32,7 @@ type Opts struct {
 	ETMethods    []int
 	HeavyRain    bool // rain distribution with a heavy tail (many sub-steps)
 	Stones       bool // high stone contents
+	MaxStone     int  // upper bound of the stone content in % (0 = 95)
 	Drain        bool // drain pipes
 	ShallowGW    bool // groundwater inside the profile
 	GWFrom       []string
@@ -177,7 +178,9 @@ func Random(r *rand.Rand, name string, o Opts) *Project {
 		if o.HighCorg {
 			h.Corg100 = between(r, 0, 600)
 		}
-		if o.Stones {
+		if o.Stones && o.MaxStone > 0 {
+			h.StonePct = pick(r, []int{0, 10, 30, o.MaxStone})
+		} else if o.Stones {
 			h.StonePct = pick(r, []int{0, 10, 30, 60, 80, 90, 95})
 		} else if r.Intn(3) == 0 {
 			h.StonePct = between(r, 0, 30)
@@ -277,7 +280,11 @@ func Random(r *rand.Rand, name string, o Opts) *Project {
 			if p.InCrop(d) {
 				continue
 			}
-			p.Till = append(p.Till, TillEv{Date: d, Cm: pick(r, []int{5, 10, 15, 20, 25, 30, 40}), Type: 1})
+			cm := pick(r, []int{5, 10, 15, 20, 25, 30, 40})
+			for cm > nl*10-6 && cm > 5 { // tillage stays inside the soil profile (round(cm/10) <= layers)
+				cm -= 5
+			}
+			p.Till = append(p.Till, TillEv{Date: d, Cm: cm, Type: 1})
 		}
 	}
 	if o.Measure {
